@@ -164,8 +164,15 @@ func mergeBuild(c any, o any, path tree.Path) (any, error) {
 	}
 	right := toBuild(c)
 	left := toBuild(o)
-	if right == nil && len(left) > 0 {
-		return nil, fmt.Errorf("cannot override %s: build must be a string or a mapping", path)
+	if right == nil {
+		if c != nil {
+			return nil, fmt.Errorf("cannot override %s: build must be a string or a mapping", path)
+		}
+		// nothing to override
+		if left == nil {
+			return o, nil
+		}
+		return left, nil
 	}
 	return mergeMappings(right, left, path)
 }
@@ -185,7 +192,7 @@ func mergeDependsOn(c any, o any, path tree.Path) (any, error) {
 	if err != nil {
 		return nil, fmt.Errorf("%s: %w", path, err)
 	}
-	return mergeConvertedMappings(right, left, path)
+	return mergeConvertedMappings(c, o, right, left, path)
 }
 
 func mergeNetworks(c any, o any, path tree.Path) (any, error) {
@@ -197,14 +204,21 @@ func mergeNetworks(c any, o any, path tree.Path) (any, error) {
 	if err != nil {
 		return nil, fmt.Errorf("%s: %w", path, err)
 	}
-	return mergeConvertedMappings(right, left, path)
+	return mergeConvertedMappings(c, o, right, left, path)
 }
 
 // mergeConvertedMappings merges two values converted by convertIntoMapping; a base which is
 // neither a mapping nor a sequence can't be overridden
-func mergeConvertedMappings(right, left map[string]any, path tree.Path) (any, error) {
-	if right == nil && len(left) > 0 {
-		return nil, fmt.Errorf("cannot override %s", path)
+func mergeConvertedMappings(c, o any, right, left map[string]any, path tree.Path) (any, error) {
+	if right == nil {
+		if c != nil {
+			return nil, fmt.Errorf("cannot override %s", path)
+		}
+		// nothing to override
+		if left == nil {
+			return o, nil
+		}
+		return left, nil
 	}
 	return mergeMappings(right, left, path)
 }
